@@ -212,12 +212,19 @@ def pick_distinct(code: int, items, k: int) -> list:
     return res
 
 
-BIG = 2**40
+def code(bits: int):
+    """A (near-)uniform integer of about `bits` bits.  Hypothesis draws bounded ranges above 2**24 with a strong bias
+    to small magnitudes, which would freeze the high mixed-radix digits; 24-bit chunks are drawn uniformly."""
+    n = -(-bits // 24)
+    return st.tuples(*[st.integers(0, 2**24 - 1)] * n).map(lambda t: sum(v << (24 * i) for i, v in enumerate(t)))
+
+
+BIG = code(48)
 
 
 @st.composite
 def spec_ast(draw, names=None, min_inputs=0, n_out=None, none_one_in=4, min_orank=1):
-    head = digits(draw(st.integers(0, BIG)), 6, 3)
+    head = digits(draw(BIG), 6, 3)
     r_outs = [r for r in [2, 3, 1, 2, 3, 4] if r >= min_orank]
     r_out = r_outs[head[0] % len(r_outs)]
     out_idx = pick_distinct(draw(st.integers(0, 8 * 7 * 6 * 5 - 1)), IDX_NAMES, r_out)
@@ -226,29 +233,28 @@ def spec_ast(draw, names=None, min_inputs=0, n_out=None, none_one_in=4, min_oran
     n_ins = [n for n in [2, 0, 1, 2, 3, 3] if n >= min_inputs]
     n_in = n_ins[head[2] % len(n_ins)]
     if names is None:
-        names = pick_distinct(draw(st.integers(0, BIG)), ARR_NAMES, n_in + n_out)
+        names = pick_distinct(draw(BIG), ARR_NAMES, n_in + n_out)
     inputs = []
     for t in range(n_in):
-        code = draw(st.integers(0, BIG))
-        code, rank0 = divmod(code, 3)
+        c, rank0 = divmod(draw(BIG), 3)
         rank = [2, 1, 3][rank0]
-        code, permcode = divmod(code, 24)
+        c, permcode = divmod(c, 24)
         supply = iter(pick_distinct(permcode, out_idx, len(out_idx)))
-        axes = [None if (d % none_one_in) == none_one_in - 1 else next(supply, None) for d in digits(code, 16, rank)]
+        axes = [None if (d % none_one_in) == none_one_in - 1 else next(supply, None) for d in digits(c, 16, rank)]
         inputs.append({"name": names[t], "axes": axes})
     outputs = [{"name": names[n_in + u], "axes": list(out_idx)} for u in range(n_out)]
     return {"inputs": inputs, "outputs": outputs}
 
 
 ws_strategy = st.one_of(
-    st.none(), st.integers(0, 6**10 - 1).map(lambda c: [[0, 0, 1, 1, 2, 3][d] for d in digits(c, 6, 10)])
+    st.none(), code(48).map(lambda c: [[0, 0, 1, 1, 2, 3][d] for d in digits(c, 6, 10)])
 )
 
 
 @st.composite
 def spec_case(draw, **kw):
     ast = draw(spec_ast(**kw))
-    misc = digits(draw(st.integers(0, BIG)), 4, 9)
+    misc = digits(draw(BIG), 4, 9)
     return {
         "spec": ast,
         "ws": draw(ws_strategy),
@@ -535,10 +541,10 @@ def rewrite_case(draw):
     base = draw(spec_case())
     ast = base["spec"]
     names = [a["name"] for a in ast["inputs"] + ast["outputs"]]
-    d = digits(draw(st.integers(0, BIG)), 5, 12)
+    d = digits(draw(BIG), 5, 12)
     kind = ["subset", "swap", "subset", "nomatch", "empty"][d[0]]
     order = pick_distinct(draw(st.integers(0, 120 * 6 - 1)), names, len(names))
-    targets = pick_distinct(draw(st.integers(0, BIG)), FRESH_NAMES, len(FRESH_NAMES))
+    targets = pick_distinct(draw(BIG), FRESH_NAMES, len(FRESH_NAMES))
     renames = {}
     if kind == "subset":
         n = 1 + (d[1] + 5 * d[2]) % len(names)
@@ -686,24 +692,39 @@ def ref_consistency(specs):
     return kinds, dims, axes
 
 
+class Dig:
+    """Mixed-radix digit stream over one drawn integer (keeps the number of Hypothesis draws small)."""
+
+    def __init__(self, code: int):
+        self.code = code
+
+    def n(self, base: int) -> int:
+        self.code, d = divmod(self.code, base)
+        return d
+
+    def pick(self, items):
+        return items[self.n(len(items))]
+
+
 @st.composite
 def list_case(draw):
-    supply = list(draw(st.permutations(ARR_NAMES)))
-    k = draw(st.sampled_from([1, 2, 2, 3, 3]))
+    supply = pick_distinct(draw(code(96)), ARR_NAMES, 15)
+    k = draw(st.sampled_from([2, 1, 2, 3, 3]))
     first = draw(spec_ast(names=supply[:5], none_one_in=8))
     del supply[:5]
     specs = [first]
     injected = None
     for _ in range(k - 1):
+        g = Dig(draw(code(120)))
         known = resolved_axes(specs)
-        carried = draw(st.lists(st.sampled_from(sorted(known)), min_size=1, max_size=min(2, len(known)), unique=True))
+        carried = pick_distinct(g.n(10**4), sorted(known), min(1 + g.n(2), len(known)))
         inputs = []
         for nm in carried:
-            axes = [ax if (ax is None or draw(st.integers(0, 3))) else None for ax in known[nm]]
+            axes = [ax if (ax is None or g.n(4)) else None for ax in known[nm]]
             inputs.append({"name": nm, "axes": axes})
-        if draw(st.integers(0, 3)) == 0:
-            tgt = inputs[draw(st.integers(0, len(inputs) - 1))]
-            kind = draw(st.sampled_from(["rename-axis", "rename-axis", "rank+1", "rank-1"]))
+        if g.n(4) == 3:
+            tgt = g.pick(inputs)
+            kind = g.pick(["rename-axis", "rename-axis", "rank+1", "rank-1"])
             namedpos = [p for p, ax in enumerate(tgt["axes"]) if ax is not None]
             if kind == "rename-axis" and not namedpos:
                 kind = "rank+1"
@@ -711,26 +732,26 @@ def list_case(draw):
                 kind = "rank+1"
             free = [ix for ix in IDX_NAMES + FRESH_IDX if ix not in tgt["axes"]]
             if kind == "rename-axis":
-                tgt["axes"][draw(st.sampled_from(namedpos))] = draw(st.sampled_from(free))
+                tgt["axes"][g.pick(namedpos)] = g.pick(free)
             elif kind == "rank+1":
-                tgt["axes"].append(draw(st.sampled_from([None] + free)))
+                tgt["axes"].append(g.pick([None] + free))
             else:
-                tgt["axes"].pop(draw(st.integers(0, len(tgt["axes"]) - 1)))
+                tgt["axes"].pop(g.n(len(tgt["axes"])))
             injected = kind
         named = list(dict.fromkeys(ax for a in inputs for ax in a["axes"] if ax is not None))
         extra = [ix for ix in IDX_NAMES if ix not in named]
-        n_extra = draw(st.integers(0, 1)) if named else 1
-        out_idx = list(draw(st.permutations(named + extra[:n_extra])))
-        for _f in range(draw(st.integers(0, 1))):
-            rank = draw(st.integers(1, 2))
-            pool = iter(draw(st.permutations(out_idx)))
-            axes = [None if draw(st.integers(0, 7)) == 0 else next(pool, None) for _ in range(rank)]
+        n_extra = g.n(2) if named else 1
+        out_idx = pick_distinct(g.n(10**4), named + extra[:n_extra], len(named) + n_extra)
+        for _f in range(g.n(2)):
+            rank = 1 + g.n(2)
+            pool = iter(pick_distinct(g.n(10**4), out_idx, len(out_idx)))
+            axes = [None if g.n(8) == 7 else next(pool, None) for _ in range(rank)]
             inputs.append({"name": supply.pop(0), "axes": axes})
-        if draw(st.booleans()):
+        if g.n(2):
             inputs.reverse()
-        outputs = [{"name": supply.pop(0), "axes": list(out_idx)} for _ in range(draw(st.sampled_from([1, 1, 2])))]
+        outputs = [{"name": supply.pop(0), "axes": list(out_idx)} for _ in range(g.pick([1, 1, 2]))]
         specs.append({"inputs": inputs, "outputs": outputs})
-    order = draw(st.permutations(range(len(specs))))
+    order = pick_distinct(draw(st.integers(0, 5)), list(range(len(specs))), len(specs))
     return {"specs": [specs[i] for i in order], "injected": injected}
 
 
@@ -838,7 +859,8 @@ def malformed_case(draw):
     elif op.startswith("outputs-"):
         o = outs[draw(st.integers(0, 1))]
         if op == "outputs-permuted":
-            perm = draw(st.permutations(out_idx).filter(lambda p: list(p) != out_idx))
+            nperm = [1, 1, 2, 6, 24][len(out_idx)]
+            perm = pick_distinct(draw(st.integers(1, nperm - 1)), out_idx, len(out_idx))  # code 0 is the identity
             o["axes"][:] = perm
         elif op == "outputs-one-index-renamed":
             o["axes"][draw(st.integers(0, len(out_idx) - 1))] = fresh
@@ -930,10 +952,10 @@ def body_strings(data) -> Outcome:
     accepted, exc, fails = check_string(MapSpec, s)
     out.labels.append("accepted" if accepted else f"rejected-{exc}")
     if accepted:
-        n_arr = len(re.findall(r"\[", s))
-        out.nontrivial = n_arr >= 2
         try:
-            if str(MapSpec.from_string(s)) != s:
+            m = MapSpec.from_string(s)
+            out.nontrivial = len(m.inputs) + len(m.outputs) >= 2
+            if str(m) != s:
                 out.labels.append("accepted-non-canonical")
         except Exception:  # noqa: BLE001
             pass
@@ -1017,21 +1039,21 @@ def body_fuzz(data) -> Outcome:
 # ------------------------------------------------------------------------------------------------
 def campaigns(tier):
     camps = [
-        Campaign("parse", body_parse, spec_case(), quick=3200, thorough=120000,
+        Campaign("parse", body_parse, spec_case(), quick=4000, thorough=120000,
                  describe="print with drawn whitespace -> from_string vs constructors; str/round trip; accessors"),
-        Campaign("shape", body_shape, spec_case(), quick=2000, thorough=60000,
+        Campaign("shape", body_shape, spec_case(), quick=2500, thorough=60000,
                  describe="shape()/mask reference; single-fault shape dictionaries must raise ValueError"),
-        Campaign("keys", body_keys, spec_case(), quick=1600, thorough=40000,
+        Campaign("keys", body_keys, spec_case(), quick=2000, thorough=40000,
                  describe="output_key / input_keys over every linear index; denotation on NumPy arrays"),
         Campaign("keys-exhaustive", body_keys_exhaustive, enumerate=enum_key_shapes, quick=0, thorough=0, exhaustive=True,
                  describe="output_key/input_keys/shape_to_strides for every shape of rank 0-4 with sizes 1-4"),
-        Campaign("rewrite", body_rewrite, rewrite_case(), quick=2000, thorough=60000,
+        Campaign("rewrite", body_rewrite, rewrite_case(), quick=2500, thorough=60000,
                  describe="rename (subset, swap, no match, empty) and add_axes (new, duplicate, None)"),
-        Campaign("lists", body_lists, list_case(), quick=2000, thorough=60000,
+        Campaign("lists", body_lists, list_case(), quick=2500, thorough=60000,
                  describe="validate_consistent_axes / mapspec_axes / mapspec_dimensions on chains of 1-3 specs"),
-        Campaign("malformed", body_malformed, malformed_case(), quick=3200, thorough=100000,
+        Campaign("malformed", body_malformed, malformed_case(), quick=4000, thorough=100000,
                  describe="single-mutation malformed specs through constructors and from_string"),
-        Campaign("strings", body_strings, string_case(), quick=3200, thorough=150000,
+        Campaign("strings", body_strings, string_case(), quick=4000, thorough=150000,
                  describe="token soup and edited valid strings: laws on every accepted string"),
     ]  # fmt: skip
     if tier == "thorough":
